@@ -17,8 +17,13 @@ def handler (mode : String) (line : String) : String :=
       | none, _, _ => "(bad-line)"
       | _, none, _ => "(bad-case)"
       | _, _, none => "fail idx=0 clause=unparsable-observation"
+  | "stats", [_, c, o] =>
+      match (parse c).bind caseOf?, parse o with
+      | some cs, some obs => stats cs obs
+      | _, _ => "unparsable=1"
   | "model", _ => "(bad-line)"
   | "oracle", _ => "(bad-line)"
+  | "stats", _ => "(bad-line)"
   | _, _ => "(bad-mode)"
 
 end Rbgp.C03
